@@ -7,6 +7,8 @@ const unsigned char *a16_bytes(size_t *n);   // the bytes of the file as stored 
 int a16_fault(long *arg);
 int a16_pre_reads(void);                     // truncated copies of the document read first, in the same process
 long a16_pre_cut(int i);
+int a16_soak(void);                          // 1: re-read the complete document after every pre-read beyond the first 24
+void a16_mid_outcome(int kind, const char *canon_or_what);   // outcome of such a re-read
 void a16_pre_outcome(int kind);                    // device fault of this run
 void a16_outcome(int kind, const char *canon_or_what);  // 0 document, 1 runtime_error, 2 other std::exception, 3 unknown exception
 void a16_run();
